@@ -23,7 +23,7 @@ def one(d):
     return name, verdict
 
 
-ds = sorted(glob.glob(os.path.join(V, "seeded", "C*-m*")), key=lambda d: (d.rsplit("-m", 1)[1], d))     # neighbours = different properties (shared cfg / sim directories)
+ds = sorted(glob.glob(os.path.join(V, "seeded", "C*-[mh]*")), key=lambda d: (d.rsplit("-", 1)[1][1:], d))     # neighbours = different properties (shared cfg / sim directories)
 if only: ds = [d for d in ds if os.path.basename(d) in only]
 with ThreadPoolExecutor(max_workers=jobs) as ex:
     res = list(ex.map(one, ds))
